@@ -37,6 +37,12 @@
 #define RINGCAP 1
 #endif
 #define L 7
+#ifndef MAXTRIG
+#define MAXTRIG 2
+#endif
+#ifndef ALLOW_REFUSE
+#define ALLOW_REFUSE 1
+#endif
 #ifndef HM1
 #define HM1 15
 #endif
@@ -151,7 +157,8 @@ static void scen_run(void)
         ASSUME(S.hm[0] == 15 && S.hm[1] == HM1 && S.hm[2] == HM2 && S.capb == 16 && S.in_len == 6);
         ASSUME(S.rc[0] == 1 && S.vinit[0] == 207);
 #endif
-        ASSUME(S.d1 < WIN && S.d2 <= 2 && S.ntrig <= 2);
+        ASSUME(S.d1 < WIN && S.d2 <= 2 && S.ntrig <= MAXTRIG);
+        if (!ALLOW_REFUSE) ASSUME(S.refuse_at == N);
         ASSUME(S.refuse_at <= N);
         t1 = T0 + S.d1;
         t2 = t1 + S.d2;
@@ -217,12 +224,12 @@ static void scen_sample(void)
         if (rnd(2)) { S.in[5] = '\n'; S.in_len = 6; } else { S.in[5] = '\r'; S.in[6] = '\n'; S.in_len = 7; }
         S.hm[0] |= H_READ;
         S.vacc[0] = 0; S.vcb[0] = 0;
-        S.d1 = (unsigned char)rnd(WIN); S.d2 = (unsigned char)rnd(3); S.ntrig = (unsigned char)rnd(3);
+        S.d1 = (unsigned char)rnd(WIN); S.d2 = (unsigned char)rnd(3); S.ntrig = (unsigned char)rnd(MAXTRIG + 1);
         S.ecmd[0] = (unsigned char)rnd(2); S.ecmd[1] = (unsigned char)rnd(2); S.ekind[0] = (unsigned char)(rnd(4) == 0); S.ekind[1] = (unsigned char)(rnd(4) == 0);
 #ifndef EVENTS_FULLY_SYMBOLIC
         S.hm[0] = 15; S.hm[1] = HM1; S.hm[2] = HM2; S.capb = 16; S.in[5] = '\n'; S.in_len = 6; S.rc[0] = 1; S.vinit[0] = 207;
 #endif
-        S.refuse_at = (unsigned char)(rnd(3) ? N : rnd(N));
+        S.refuse_at = (unsigned char)((rnd(3) || !ALLOW_REFUSE) ? N : rnd(N));
         for (i = 0; i < N; i++) S.sw[i] = (unsigned char)(i == S.refuse_at);
 }
 #endif
